@@ -91,9 +91,12 @@ Aligned(o, kind, input, base, out, withPos) ==
                               \* (decoding is only required not to fail on it) - the token stays one token of its type
                               \* (likewise a literal that one quote state read and a state of ANOTHER kind decodes - the configuration
                               \* generic-2quotes: the two states need not agree on what doubled quotes inside mean)
-                              \/ ("decodeStrings" \in o /\ (IsQuoteTok(kind, b) \/ MayDecode(o, kind, b))
-                                  /\ (~ClosedLiteral(b[2]) \/ (kind = "generic-2quotes" /\ b[2][1] = 96))
-                                  /\ out[j][1] = Rewrite(o, kind, b)[1]))
+                              \/ ("decodeStrings" \in o /\ (IsQuoteTok(kind, b) \/ MayDecode(o, kind, b)) /\ ~ClosedLiteral(b[2])
+                                  /\ out[j][1] = Rewrite(o, kind, b)[1])
+                              \* (a literal that one quote state read and a state of ANOTHER kind decodes - the configuration
+                              \* generic-2quotes: decoded the generic way, or with doubled quotes inside collapsed)
+                              \/ ("decodeStrings" \in o /\ kind = "generic-2quotes" /\ IsQuoteTok(kind, b) /\ b[2][1] = 96
+                                  /\ <<out[j][1], out[j][2]>> = <<Rewrite(o, kind, b)[1], Decode("expression", b[2], 96)>>))
                           /\ (withPos => <<out[j][3], out[j][4]>> = pos)
              \* Deterministic (one pass): a token that must go is dropped; otherwise it is kept when the next output token
              \* is its rewrite, else dropped if an option allows that.  This decides the existence of an alignment: the only
